@@ -1499,6 +1499,52 @@ fn fixed_case(types: Vec<TypeDef>, vals: Vec<&str>, label: &str) -> GenCase {
     c
 }
 
+/// A field whose own `Debug` fails after writing part of its text: the text that has reached the sink and the `Err` must be
+/// those of std's derive (std's builders stop writing once a field has failed; seed C06-l wrote the closing `)` anyway).
+fn failing_field_case() -> GenCase {
+    let items = |derive: &str| {
+        format!(
+            "    use super::Fail;\n    #[derive({derive})] pub struct T(pub i32, pub Fail);\n    #[derive({derive})] pub struct T1(pub Fail);\n    #[derive({derive})] pub struct T3(pub Fail, pub i32, pub Fail);\n    #[derive({derive})] pub struct N {{ pub a: i32, pub b: Fail }}\n    #[derive({derive})] pub enum E {{ V(Fail, i32), W {{ x: Fail, y: i32 }} }}\n"
+        )
+    };
+    let body = format!(
+        r#"pub struct Fail(pub bool);
+impl std::fmt::Debug for Fail {{
+    fn fmt(&self, f: &mut std::fmt::Formatter<'_>) -> std::fmt::Result {{ f.write_str("<part")?; if self.0 {{ Err(std::fmt::Error) }} else {{ Ok(()) }} }}
+}}
+pub mod d {{
+{}}}
+pub mod s {{
+{}}}
+fn probe(v: &dyn std::fmt::Debug) -> String {{
+    use std::fmt::Write;
+    let mut out = vec![];
+    macro_rules! p {{ ($($l:literal),*) => {{ $( {{ let mut s = String::new(); let r = write!(s, $l, v); out.push(format!("{{}} -> ok={{}} sink={{:?}}", $l, r.is_ok(), s)); }} )* }} }}
+    p!("{{:?}}", "{{:#?}}", "{{:x?}}", "{{:>9?}}");
+    out.join(" | ")
+}}
+pub fn run(o: &mut Out) {{
+    for fail in [true, false] {{
+        let what = |n: &str| format!("{{n}} with a field whose Debug {{}}: result and text written to the sink equal std's derive", if fail {{ "fails after writing part of its text" }} else {{ "succeeds" }});
+        o.eq(&what("T(i32, Fail)"), &probe(&s::T(7, Fail(fail))), &probe(&d::T(7, Fail(fail))));
+        o.eq(&what("T1(Fail)"), &probe(&s::T1(Fail(fail))), &probe(&d::T1(Fail(fail))));
+        o.eq(&what("T3(Fail, i32, Fail)"), &probe(&s::T3(Fail(fail), 7, Fail(false))), &probe(&d::T3(Fail(fail), 7, Fail(false))));
+        o.eq(&what("N {{ a, b: Fail }}"), &probe(&s::N {{ a: 7, b: Fail(fail) }}), &probe(&d::N {{ a: 7, b: Fail(fail) }}));
+        o.eq(&what("E::V(Fail, i32)"), &probe(&s::E::V(Fail(fail), 7)), &probe(&d::E::V(Fail(fail), 7)));
+        o.eq(&what("E::W {{ x: Fail, y }}"), &probe(&s::E::W {{ x: Fail(fail), y: 7 }}), &probe(&d::E::W {{ x: Fail(fail), y: 7 }}));
+        o.eq(&what("Some(T(i32, Fail))"), &probe(&Some(s::T(7, Fail(fail)))), &probe(&Some(d::T(7, Fail(fail)))));
+    }}
+}}
+"#,
+        items("derive_more::Debug"),
+        items("Debug")
+    );
+    let mut c = GenCase::new(body);
+    c.labels = vec!["fixed".into(), "fixed_field_whose_debug_fails".into()];
+    c.nontrivial = true;
+    c
+}
+
 /// deterministic regression / corner cases named by the property and the design
 fn fixed() -> Vec<GenCase> {
     let f = |name: &str, ty: Ty, attr: Attr| FieldDef { name: name.into(), ty, attr };
@@ -1523,6 +1569,7 @@ fn fixed() -> Vec<GenCase> {
             vec!["S(\"a\\nb\", 2)"],
             "fixed_multiline_field_format",
         ),
+        failing_field_case(),
     ]
 }
 
